@@ -19,6 +19,10 @@ EXC_FIELDS = {"__cause__": "cause", "__traceback__": "tb", "errno": "errno",
               "__context__": "context", "args": "payload"}
 
 
+import re
+LOG_CLAUSE = re.compile(r"\b(log_[a-z_]+|all_events|exists_event|ordered|tail|has_loop|yielded)\(")
+
+
 class Star:
     def __init__(self, v):
         self.v = v
@@ -235,6 +239,8 @@ class CallMixin:
                 return self.call_method(fn, "__call__", args, kwargs, st, node)
             raise EngineError(f"call of object of class {fn.cls}")
         if isinstance(fn, VConst):
+            if fn.name in self.schema.contracts:
+                return self.apply_contract(self.schema.contracts[fn.name], None, args, kwargs, st, node)
             raise EngineError(f"unresolved call: no contract for external {fn.name!r}")
         raise EngineError(f"call of {fn!r}")
 
@@ -563,23 +569,27 @@ class CallMixin:
     def apply_contract(self, c, self_v, args, kwargs, st, node):
         if c.trusted:
             self.trusted_used.add(c.key)
+        for ck, hook in getattr(self, "at_call_hooks", []):
+            if ck == c.key:
+                hook(self, None, st, node)
         impl = getattr(c, "impl", None)
         if impl is not None:
             return impl(self, st, self_v, args, kwargs, node)
         env = self.bind_contract_args(c, self_v, args, kwargs, st)
+        cmod = c.key.split(":")[0] if ":" in c.key else getattr(c, "spec_module", None)
         caller = self.cur_key or "?"
         short = c.key.split(":")[-1]
         site = self.site(node)
         for nm, expr in c.lets:
-            env[nm] = self.spec_value(expr, st, env)
+            env[nm] = self.spec_value(expr, st, env, module=cmod)
         # preconditions: named call-site obligations
         for label, expr in c.requires_:
-            g = self.spec_eval(expr, st, env)
+            g = self.spec_eval(expr, st, env, module=cmod)
             self.prove(st, g, f"{caller}@call:{short}/pre/{label}",
                        prop=self.prop_of(None), kind="call-pre", site=site)
             st.assume(g)
         for lk in getattr(c, "entry_held", []):
-            lv = self.spec_value(lk, st, env)
+            lv = self.spec_value(lk, st, env, module=cmod)
             g = z3.Or([h == lv.t for h in st.held] or [z3.BoolVal(False)])
             self.prove(st, g, f"{caller}@call:{short}/pre/holds:{lk}",
                        prop=self.prop_of(None), kind="call-pre", site=site)
@@ -591,7 +601,7 @@ class CallMixin:
         for lab, exc, when, post in exc_specs:
             s = old.clone()
             if when is not None:
-                w = self.spec_eval(when, s, env)
+                w = self.spec_eval(when, s, env, module=cmod)
                 if not self.feasible(s, w):
                     continue
                 s.assume(w)
@@ -601,12 +611,12 @@ class CallMixin:
             s.assume(self.schema.exc_valid(ct, exc))
             s.write_field(e, "cls", VInt(ct))
             for tag, eargs in c.events_:
-                s.emit(tag, [self.spec_value(a, old, env) for a in eargs], site)
+                s.emit(tag, [self.spec_value(a, old, env, module=cmod) for a in eargs], site)
             s.emit(f"raise:{short}", [e], site)
-            if post is not None:
+            if post is not None and not LOG_CLAUSE.search(post):
                 env2 = dict(env)
                 env2["exc"] = e
-                s.assume(self.spec_eval(post, s, env2, old=old))
+                s.assume(self.spec_eval(post, s, env2, old=old, mode="hyp", module=cmod))
             s.notes.append(f"{short}@{site} raises {exc}")
             outs.append(("exc", s, e))
         # normal outcome
@@ -625,12 +635,19 @@ class CallMixin:
             env2 = dict(env)
             env2["result"] = res
             for tag, eargs in c.events_:
-                s.emit(tag, [self.spec_value(a, old, env2) for a in eargs], site)
+                s.emit(tag, [self.spec_value(a, old, env2, module=cmod) for a in eargs], site)
             if not c.trusted:
                 s.emit(f"call:{short}", [res] + [env[p[0]] for p in c.params], site)
+            if c.result_name != "result":
+                env2[c.result_name] = res
+                env2.pop("result", None)
+                if "result" in env:
+                    env2["result"] = env["result"]
             for label, expr, _p in c.ensures_:
-                s.assume(self.spec_eval(expr, s, env2, old=old))
-            if self.feasible(s):
+                if LOG_CLAUSE.search(expr):
+                    continue    # speaks about the callee's own event log: not visible to callers
+                s.assume(self.spec_eval(expr, s, env2, old=old, mode="hyp", module=cmod))
+            if not c.ensures_ or self.feasible(s):
                 outs.append(("val", s, res))
         return outs
 
@@ -656,6 +673,7 @@ class CallMixin:
         return c.props[0] if c is not None and c.props else None
 
     def havoc_modifies(self, c, st, env):
+        self._havoc_mod = c.key.split(":")[0] if ":" in c.key else None
         for path in (c.modifies_ or []):
             self.havoc_path(path, st, env)
 
@@ -673,7 +691,7 @@ class CallMixin:
             st.globs[(mod, name)] = fresh_value(d.T, f"hglob_{name}") if not isinstance(d.T, ty.Union) else VObj(fresh_const("hglob", ty.IntS))
             return
         if path.startswith("contents(") and path.endswith(")"):
-            v = self.spec_value(path[9:-1], st, env)
+            v = self.spec_value(path[9:-1], st, env, module=self._havoc_mod)
             if isinstance(v, VRef) and isinstance(v.T, ty.Map):
                 st.map_havoc(v)
                 return
@@ -683,7 +701,7 @@ class CallMixin:
             raise EngineError(f"modifies contents of {v!r}")
         if "." in path:
             objx, field = path.rsplit(".", 1)
-            v = self.spec_value(objx, st, env)
+            v = self.spec_value(objx, st, env, module=self._havoc_mod)
             if not isinstance(v, VRef):
                 raise EngineError(f"modifies path {path}: {v!r} is not a reference")
             owner, T = self.schema.field(v.cls, field)
@@ -875,7 +893,12 @@ class CallMixin:
             return z3.BoolVal(c.name in self.schema.mro(v.cls))
         if isinstance(v, VObj):
             if c.exc_id is not None:
-                return _isinst(v.t, z3.IntVal(const_id(f"class:{c.name}")))
+                ids = self.schema.exc_descendants(c.name)
+                return z3.And(v.t != 0, st.cls_of(v.t) == const_id("class:<exc>"),
+                              self.schema.exc_isinstance(self.exc_cls_term(st, VRef(v.t, "<exc>")), c.name))
+            if c.name in self.schema.classes:
+                subs = [n for n in self.schema.classes if c.name in self.schema.mro(n)]
+                return z3.And(v.t != 0, z3.Or([st.cls_of(v.t) == const_id(f"class:{n}") for n in subs]))
             return _isinst(v.t, z3.IntVal(const_id(f"class:{c.name}")))
         if isinstance(v, VFn) and v.kind == "partial":
             return z3.BoolVal(c.name == "functools.partial")
@@ -1212,7 +1235,8 @@ class CallMixin:
             f = z3.Function("py_join", ty.StrS, z3.SeqSort(ty.StrS), ty.StrS)
             self.abstractions.add("str.join over a symbolic sequence is uninterpreted py_join")
             return [self.val(st, VStr(f(sep.t, seq.t)))]
-        if isinstance(seq, VAbs):
+        if isinstance(seq, (VAbs, VObj)):
+            self.abstractions.add("str.join over an opaque iterable is an opaque string term")
             return [self.val(st, VStr(fresh_const("join", ty.StrS)))]
         raise EngineError(f"join over {seq!r}")
 
